@@ -16,7 +16,9 @@
 package main
 
 import (
+	"bufio"
 	"fmt"
+	"os"
 	"strings"
 
 	"verifharness/internal/hx"
@@ -47,6 +49,49 @@ func execute(desc string, seed uint64) string {
 	}
 	return obs
 }
+
+// lineTrace writes the `case => observed` lines of hx.Trace, but hands every line to the reader at
+// once. A history in which a handshake hangs costs the 30 s watchdog of the pair runner; when many do
+// (a server that names the offered identifier in the ServerHello of a FULL handshake leaves the
+// client waiting for a Finished that never comes), the phase timeout kills the driver — and with a
+// block-buffered trace the lines already produced, the failing ones among them, were lost: the check
+// could then only say "no failing input found". Unbuffered lines survive the kill.
+type lineTrace struct {
+	w *bufio.Writer
+	f *os.File
+}
+
+func newLineTrace(path string) *lineTrace {
+	if path == "" {
+		return &lineTrace{w: bufio.NewWriter(os.Stdout)}
+	}
+	f, err := os.Create(path)
+	if err != nil {
+		fmt.Fprintln(os.Stderr, err)
+		os.Exit(2)
+	}
+	return &lineTrace{w: bufio.NewWriter(f), f: f}
+}
+
+func (t *lineTrace) Line(desc, observed string) {
+	t.w.WriteString(desc)
+	t.w.WriteString(" => ")
+	t.w.WriteString(observed)
+	t.w.WriteByte('\n')
+	t.w.Flush()
+}
+
+func (t *lineTrace) Close() {
+	t.w.Flush()
+	if t.f != nil {
+		t.f.Close()
+	}
+}
+
+// maxHangs: after this many histories with a handshake that ended in the watchdog the generator
+// stops (each costs 30 s, each is a failing input already handed to the oracle; without a man in the
+// middle a hang is never what the cache-less control does). Replays are never cut short.
+const maxHangs = 3
 
 const (
 	gcm = "e053"
@@ -126,12 +171,22 @@ func randomConn(r *hx.Rand, ccap int) string {
 
 func main() {
 	o := hx.ParseOpts()
-	tr := hx.NewTrace(o.Out)
+	tr := newLineTrace(o.Out)
 	defer tr.Close()
 	seq := uint64(0)
+	hangs := 0
 	emit := func(desc string) {
+		if hangs >= maxHangs && o.Replay == "" {
+			return
+		}
 		seq++
-		tr.Line(desc, execute(desc, o.Seed*1000003+seq))
+		obs := execute(desc, o.Seed*1000003+seq)
+		tr.Line(desc, obs)
+		if strings.Contains(obs, "timeout") {
+			if hangs++; hangs == maxHangs && o.Replay == "" {
+				fmt.Fprintf(os.Stderr, "c10: %d histories hung until the watchdog; the generator stops here (they are in the trace)\n", hangs)
+			}
+		}
 	}
 	if o.Replay != "" {
 		for _, c := range hx.ReplayCases(o.Replay) {
@@ -182,6 +237,24 @@ func main() {
 		hd(4, 4, honest(1), conn("st1", 0, 0, both, both, "ok"), honest(1), honest(0))
 		hd(4, 4, honest(0), conn("-", 0, 0, cbc, both, "ok"), conn("-", 0, 0, both, cbc, "ok"), honest(0))
 		hd(4, 4, conn("-", 0, 0, gcm, both, "ok"), conn("-", 0, 0, both, cbc, "ok"), conn("-", 0, 0, gcm, cbc, "ok"))
+		// server RECONFIGURATION with the cache kept: the server still holds the offered session but must not
+		// resume it (its suite is no longer enabled; the client no longer offers it). A full handshake as if
+		// nothing had been offered, under a FRESH identifier (the ServerHello must not name the offered one:
+		// the client takes an echoed identifier for a resumption), and the new session is what later
+		// connections resume; back and forth; with a resumption in between; small caches; the other server
+		// unaffected; with client authentication; with a man in the middle (the fall-back clause is silent
+		// there, the identifier clause is not)
+		srv := func(ss string) string { return conn("-", 0, 0, both, ss, "ok") }
+		hd(4, 4, srv(gcm), srv(gcm), srv(cbc), srv(cbc), srv(both))
+		hd(4, 4, srv(cbc), srv(gcm), srv(cbc), srv(gcm))
+		hd(1, 1, srv(gcm), srv(cbc), srv(cbc))
+		hd(2, 4, srv(both), srv(cbc), srv(both), srv(gcm))
+		hd(4, 4, srv(gcm), honest(1), srv(cbc), honest(1), srv(cbc))
+		hd(4, 4, auth(srv(gcm), 4, "c"), auth(srv(cbc), 4, "c"), auth(srv(cbc), 4, "c"))
+		hd(4, 4, auth(srv(gcm), 1, "c"), auth(srv(cbc), 0, "c"), auth(srv(gcm), 3, "d"))
+		hd(4, 4, srv(gcm), conn("-", 0, 0, both, cbc, "sf"), srv(cbc), srv(cbc))
+		hd(4, 4, srv(gcm), conn("-", 0, 0, both, cbc, "cf"), srv(cbc), srv(cbc))
+		hd(4, 4, srv(gcm), conn("j1", 0, 0, cbc+"."+gcm, cbc, "ok"), srv(gcm), srv(gcm))
 		// a session that was OFFERED but not accepted, in a connection that then fails at the client, must
 		// not be offered again (the cleanup covers every error, not only failed resumptions):
 		//   server cache lost + damaged server Finished; the destination now reaches the other server +
@@ -287,6 +360,20 @@ func main() {
 					cs[k+1] = conn("j1", d, 1-d, both, cbc+"."+gcm, fault)
 				}
 				cs[k+2] = honest(d)
+			}
+			if ln >= 3 && r.Chance(15) {
+				// server reconfiguration with the cache kept: a session negotiated under one suite, then the
+				// server enables only the other one (the session is held but must not be resumed), then the
+				// same configuration again (the new session is resumed); sometimes disturbed
+				d := r.Intn(2)
+				k := r.Intn(ln - 2)
+				s1, s2 := gcm, cbc
+				if r.Bool() {
+					s1, s2 = cbc, gcm
+				}
+				cs[k] = conn("-", d, d, both, s1, "ok")
+				cs[k+1] = conn("-", d, d, hx.Pick(r, []string{both, both, cbc + "." + gcm}), s2, hx.Pick(r, []string{"ok", "ok", "ok", "sf", "cf"}))
+				cs[k+2] = conn("-", d, d, both, hx.Pick(r, []string{s2, s2, both}), "ok")
 			}
 			// client authentication: 40% of the histories run with certificates / policies — one
 			// configuration for the whole history, re-drawn per connection with probability 1/4
